@@ -162,6 +162,8 @@ def prox_05(x, u):
 def prox_block_2_05(x, u):
     """Proximal operator of block L0.5 penalty."""
     norm_x = norm(x, ord=2)
+    if norm_x == 0:
+        return np.zeros_like(x)
     return (prox_05(norm_x, u) / norm_x) * x
 
 
